@@ -14,7 +14,20 @@ Types: Z, B (bool), L (list Z), O (option Z), Y (the series: only `y.shape[0]`, 
        RLP / LP (generators with / without errors), RU (procedure that may raise).
 The emitted definitions live in build/coq/<dir>/Gen.v; committed Bridge.v proves them equal to the
 hand-written model for all arguments.
+
+Rewrites the translation follows (so that a harmless clean-up of the source does not break the tie):
+  * guard clauses / early returns (`if c: return a` + rest  ==  `if c: return a else: rest`) - by
+    the continuation style of `block`;
+  * private helpers: a call of a module-level function of the same file (or one imported from
+    another file of the repository by `from m import f`, if cfg["repo"] is given) or of `self._m(..)`
+    defined in the class of the translated method (or a base class in the same file) that has no
+    handler in `calls` is translated by inlining the callee's body with its parameters bound to
+    the translated arguments (kind "inl": `return e` gives the value, `raise` gives Err, the result
+    type is inferred; abstract methods and recursion are not inlined);
+  * `getattr(self, "a", d)` for `self.a` (when `self.a` is configured, else the default);
+  * `yield <call that may raise>`; temporaries (`m = np.max(c)`), conditional expressions.
 """
+import os
 import ast
 import re
 
@@ -59,6 +72,15 @@ BIN = {ast.Add: "+", ast.Sub: "-", ast.Mult: "*"}
 CMP = {ast.Gt: ">?", ast.GtE: ">=?", ast.Lt: "<?", ast.LtE: "<=?", ast.Eq: "=?"}
 
 
+def is_rtype(ty):
+    return len(ty) > 1 and ty[0] == "R" and ty != "RAISE"
+
+
+def _body(fn):
+    return [s for s in fn.body if not (isinstance(s, ast.Expr) and isinstance(s.value, ast.Constant)
+                                       and isinstance(s.value.value, str))]
+
+
 class Tr:
     """Translates one function. `calls` maps a call's unparsed callee to a handler."""
 
@@ -66,7 +88,128 @@ class Tr:
         self.fn = fn
         self.cfg = cfg
         self.calls = calls
-        self.kind = cfg["kind"]  # fun | rfun | proc | gen | rgen
+        self.kind = cfg["kind"]  # fun | rfun | proc | gen | rgen  (| inl while inlining a helper)
+        self.mod = None          # module of `fn`: set by translate_function, enables inlining
+        self.stack = []          # helpers being inlined
+
+    # ---- helper inlining ---------------------------------------------------------------------
+    def lift(self, t, ty):
+        """A value as the result of a computation that may raise."""
+        if ty == "RAISE" or is_rtype(ty):
+            return t, ty
+        return "(Ok %s)" % t, "R" + ty
+
+    def unify(self, a, ta, b, tb):
+        """Common type of two branches (a raising branch fits any result type)."""
+        if ta == tb:
+            return a, b, ta
+        if ta == "RAISE":
+            b, tb = self.lift(b, tb)
+            return a, b, tb
+        if tb == "RAISE":
+            a, ta = self.lift(a, ta)
+            return a, b, ta
+        if is_rtype(ta) and ta[1:] == tb:
+            return a, "(Ok %s)" % b, ta
+        if is_rtype(tb) and tb[1:] == ta:
+            return "(Ok %s)" % a, b, tb
+        raise Unsupported("branch types differ: %s vs %s" % (ta, tb))
+
+    def resolve(self, f):
+        """The definition a call refers to, if it is a private helper we may inline:
+        (FunctionDef, takes_self) or None."""
+        if self.mod is None:
+            return None
+        if isinstance(f, ast.Name):
+            for n in self.mod.body:
+                if isinstance(n, ast.FunctionDef) and n.name == f.id:
+                    return n, False
+            repo = self.cfg.get("repo")
+            for n in self.mod.body:
+                if repo and isinstance(n, ast.ImportFrom) and n.module and n.level == 0 \
+                        and any((a.asname or a.name) == f.id for a in n.names):
+                    name = [a.name for a in n.names if (a.asname or a.name) == f.id][0]
+                    base = os.path.join(repo, *n.module.split("."))
+                    for path in (base + ".py", os.path.join(base, "__init__.py")):
+                        if os.path.exists(path):
+                            with open(path) as fh_:
+                                m2 = ast.parse(fh_.read())
+                            for d in m2.body:
+                                if isinstance(d, ast.FunctionDef) and d.name == name:
+                                    return d, False
+            return None
+        if isinstance(f, ast.Attribute) and isinstance(f.value, ast.Name) and f.value.id == "self" \
+                and "." in self.cfg.get("path", ""):
+            classes = {n.name: n for n in self.mod.body if isinstance(n, ast.ClassDef)}
+            todo, seen = [self.cfg["path"].split(".")[0]], set()
+            while todo:
+                c = todo.pop(0)
+                if c in seen or c not in classes:
+                    continue
+                seen.add(c)
+                for n in classes[c].body:
+                    if isinstance(n, ast.FunctionDef) and n.name == f.attr:
+                        static = any(ast.unparse(d) == "staticmethod" for d in n.decorator_list)
+                        return n, not static
+                todo += [ast.unparse(b) for b in classes[c].bases]
+        return None
+
+    def inline(self, e, env):
+        """Translate a call of a private helper by inlining its body; None if `e` is not one."""
+        r = self.resolve(e.func)
+        if r is None:
+            return None
+        fn, takes_self = r
+        body = _body(fn)
+        if len(body) == 1 and isinstance(body[0], ast.Raise):
+            return None                                   # abstract method
+        if fn in self.stack or len(self.stack) >= 6:
+            raise Unsupported("recursive helper " + fn.name)
+        a = fn.args
+        if a.vararg or a.kwarg or a.kwonlyargs or a.posonlyargs \
+                or any(isinstance(x, ast.Starred) for x in e.args):
+            raise Unsupported("signature of helper " + fn.name)
+        names = [x.arg for x in a.args]
+        if takes_self:
+            names = names[1:]
+        dflt = dict(zip(names[len(names) - len(a.defaults):], a.defaults))
+        given = {}
+        if len(e.args) > len(names):
+            raise Unsupported("arguments of helper " + fn.name)
+        for n, x in zip(names, e.args):
+            given[n] = x
+        for kw in e.keywords:
+            if kw.arg is None or kw.arg not in names or kw.arg in given:
+                raise Unsupported("keyword of helper " + fn.name)
+            given[kw.arg] = kw.value
+        env2 = {k: v for k, v in env.items() if k.startswith("self.")}
+        for n in names:
+            node = given.get(n)
+            try:
+                if node is None:
+                    if n not in dflt:
+                        raise Unsupported("missing argument %s of %s" % (n, fn.name))
+                    t, ty = self.expr(dflt[n], {})
+                else:
+                    t, ty = self.expr(node, env)
+                if is_rtype(ty) or ty == "RAISE":
+                    raise Unsupported("raising argument of helper " + fn.name)
+            except Unsupported:
+                # an argument outside the subset (`self`, a message, ...) is fine as long as the
+                # helper only uses it where text does not matter (messages of `raise`)
+                t, ty = "?", "UNBOUND"
+            env2[n] = (t, ty)
+        saved = self.kind
+        self.kind = "inl"
+        self.stack.append(fn)
+        try:
+            t, ty = self.block(body, env2)
+        finally:
+            self.kind = saved
+            self.stack.pop()
+        if ty == "RAISE":
+            raise Unsupported("helper %s always raises" % fn.name)
+        return t, ty
 
     # ---- expressions: return (coq text, type)
     def expr(self, e, env):
@@ -80,12 +223,17 @@ class Tr:
             raise Unsupported("constant %r" % (e.value,))
         if isinstance(e, ast.Name):
             if e.id in env:
+                if env[e.id][1] == "UNBOUND":
+                    raise Unsupported("argument %s of a helper is outside the subset" % e.id)
                 return env[e.id]
             raise Unsupported("unbound name " + e.id)
         if isinstance(e, ast.Attribute):
             u = ast.unparse(e)
             if u in env:
                 return env[u]
+            if e.attr == "shape" and isinstance(e.value, ast.Name) and e.value.id in env \
+                    and env[e.value.id][1] == "Y":
+                return env[e.value.id][0], "YSHAPE"
             raise Unsupported("attribute " + u)
         if isinstance(e, ast.UnaryOp) and isinstance(e.op, ast.Not):
             t, ty = self.expr(e.operand, env)
@@ -135,6 +283,8 @@ class Tr:
                 return env[u]
             v, tv = self.expr(e.value, env)
             s = e.slice
+            if tv == "YSHAPE" and isinstance(s, ast.Constant) and s.value == 0:
+                return v, "Z"                      # y.shape[0] of the (always given) series
             if tv == "LOC":
                 # label-based selection on a series: the labels of the result are the given
                 # labels (pandas raises KeyError for labels not in the index: a side condition of
@@ -170,6 +320,18 @@ class Tr:
             callee = ast.unparse(e.func)
             if callee in self.calls:
                 return self.calls[callee](self, e, env)
+            if callee == "getattr" and len(e.args) == 3 and not e.keywords \
+                    and ast.unparse(e.args[0]) == "self" and isinstance(e.args[1], ast.Constant) \
+                    and isinstance(e.args[1].value, str):
+                key = "self." + e.args[1].value
+                if key in env:
+                    return env[key]            # the attribute exists on the modelled object
+                if key in self.cfg.get("absent_attrs", ()):
+                    return self.expr(e.args[2], env)
+                raise Unsupported("getattr of unconfigured attribute " + key)
+            r = self.inline(e, env)
+            if r is not None:
+                return r
             raise Unsupported("call " + callee)
         if isinstance(e, ast.Tuple) and len(e.elts) == 2:
             a, ta = self.expr(e.elts[0], env)
@@ -215,8 +377,7 @@ class Tr:
                 c = "(negb (pv_is_none %s))" % t if neg else "(pv_is_none %s)" % t
                 a, ta = then_k(env)
                 b, tb = else_k(env)
-                if ta != tb:
-                    raise Unsupported("branch types differ: %s vs %s" % (ta, tb))
+                a, b, ta = self.unify(a, ta, b, tb)
                 return "(if %s then %s else %s)" % (c, a, b), ta
             if ty not in OPTION_OF:
                 raise Unsupported("`is None` on type " + ty)
@@ -225,8 +386,7 @@ class Tr:
             env_some = {k: ((binder, inner) if v == (t, ty) else v) for k, v in env.items()}
             some_t, some_ty = (then_k if neg else else_k)(env_some)
             none_t, none_ty = (else_k if neg else then_k)(env)
-            if some_ty != none_ty:
-                raise Unsupported("branch types differ")
+            some_t, none_t, some_ty = self.unify(some_t, some_ty, none_t, none_ty)
             return "(match %s with Some %s => %s | None => %s end)" % (t, binder, some_t, none_t), \
                 some_ty
         if isinstance(test, ast.BoolOp) and isinstance(test.op, ast.And) and len(test.values) == 2:
@@ -237,12 +397,13 @@ class Tr:
         self.need(tc, "B", test)
         a, ta = then_k(env)
         b, tb = else_k(env)
-        if ta != tb:
-            raise Unsupported("branch types differ: %s vs %s" % (ta, tb))
+        a, b, ta = self.unify(a, ta, b, tb)
         return "(if %s then %s else %s)" % (c, a, b), ta
 
     # ---- statements, continuation style; result type depends on kind
     def ret_type(self):
+        if self.kind == "inl":
+            return "RAISE"
         if self.kind == "proc" and self.cfg.get("final"):
             return "R" + self.cfg["state"][self.cfg["final"]]
         return {"fun": self.cfg.get("ret", "Z"), "rfun": "R" + self.cfg.get("ret", "Z"),
@@ -250,6 +411,8 @@ class Tr:
 
     def finish(self, env=None):
         k = self.kind
+        if k == "inl":
+            return "tt", "U"          # the helper falls off its end: returns None
         if k == "proc" and self.cfg.get("final"):
             t, ty = env[self.cfg["final"]]
             want = self.cfg["state"][self.cfg["final"]]
@@ -302,10 +465,12 @@ class Tr:
         if isinstance(s, ast.Assign) and len(s.targets) == 1 and isinstance(s.targets[0], ast.Name):
             v = s.targets[0].id
             t, ty = self.expr(s.value, env)
-            if ty in ("RZ", "RL", "RV") and self.kind in ("rfun", "proc", "rgen"):
+            if ty in ("RZ", "RL", "RV") and self.kind in ("rfun", "proc", "rgen", "inl"):
                 env2 = dict(env)
                 env2[v] = (cname(v), ty[1:])
                 body, bty = self.block(rest, env2)
+                if self.kind == "inl":
+                    body, bty = self.lift(body, bty)
                 return "(match %s with Err => Err | Ok %s => %s end)" % (t, cname(v), body), bty
             if ty in ("RLP", "LP", "RU", "P"):
                 raise Unsupported("assignment of type " + ty)
@@ -328,10 +493,14 @@ class Tr:
                              lambda en: self.block(s.body + rest, en),
                              lambda en: self.block(s.orelse + rest, en))
         if isinstance(s, ast.Raise):
-            if self.kind in ("rfun", "proc", "rgen"):
+            if self.kind in ("rfun", "proc", "rgen", "inl"):
                 return "Err", self.ret_type()
             raise Unsupported("raise in a function configured as total")
         if isinstance(s, ast.Return):
+            if self.kind == "inl":
+                if s.value is None or (isinstance(s.value, ast.Constant) and s.value.value is None):
+                    return "tt", "U"
+                return self.expr(s.value, env)
             if self.kind == "fun":
                 t, ty = self.expr(s.value, env)
                 self.need(ty, self.cfg.get("ret", "Z"), s)
@@ -345,6 +514,10 @@ class Tr:
             raise Unsupported("return in generator/procedure")
         if isinstance(s, ast.Expr) and isinstance(s.value, ast.Yield):
             t, ty = self.expr(s.value.value, env)
+            if ty == "RP" and self.kind == "rgen":
+                # the yielded pair comes from a call that may raise
+                body, bty = self.block(rest, env)
+                return "(match %s with Err => Err | Ok p_ => rcons p_ %s end)" % (t, body), "RLP"
             self.need(ty, "P", s)
             body, bty = self.block(rest, env)
             if self.kind == "gen":
@@ -354,11 +527,15 @@ class Tr:
             raise Unsupported("yield outside generator")
         if isinstance(s, ast.Expr) and isinstance(s.value, ast.Call):
             t, ty = self.expr(s.value, env)
+            if ty == "U":
+                return self.block(rest, env)       # an inlined helper that cannot raise here
             if ty != "RU":
                 raise Unsupported("expression statement of type " + ty)
-            if self.kind not in ("rfun", "proc", "rgen"):
+            if self.kind not in ("rfun", "proc", "rgen", "inl"):
                 raise Unsupported("raising call in total function")
             body, bty = self.block(rest, env)
+            if self.kind == "inl":
+                body, bty = self.lift(body, bty)
             return "(match %s with Err => Err | Ok _ => %s end)" % (t, body), bty
         if isinstance(s, ast.For) and not s.orelse:
             return self.loop(s, rest, env)
@@ -490,6 +667,7 @@ def translate_function(mod, cfg, calls):
         if a != "self" and a not in env and a not in cfg.get("ignore", ()):
             raise Unsupported("%s: parameter %s is not configured" % (cfg["path"], a))
     tr = Tr(fn, cfg, calls)
+    tr.mod = mod
     body, ty = tr.block(fn.body, env)
     seen = []
     for coq, ty_ in params:
